@@ -22,6 +22,11 @@ type EqOpts struct {
 	// IgnoreTime: time.Time leaves are not compared (their resolution depends
 	// on the schema format, which reflection cannot see; bytes are compared instead).
 	IgnoreTime bool
+	// TimeAtSomeResolution: the format of a time.Time leaf is unknown, but whatever it is, what comes
+	// back is the original at the resolution of one of ogen's time formats: the same instant
+	// (date-time, the unix family: values are built at whole seconds), its calendar date at midnight
+	// UTC (date) or its clock time on ogen's zero date (time). Anything else is a changed value.
+	TimeAtSomeResolution bool
 	// UnsetMayBecomeSet: an unset optional member on the sending side may arrive set (schema
 	// defaults, discriminator members the encoder derives from the variant). Used only where the
 	// document's defaults are not modelled (corpus documents).
@@ -57,6 +62,20 @@ func eq(a, b reflect.Value, o EqOpts, path string) (bool, string) {
 			return true, ""
 		}
 		x, y := a.Interface().(time.Time), b.Interface().(time.Time)
+		if o.TimeAtSomeResolution {
+			yu := y.UTC()
+			switch {
+			case x.Equal(y):
+			case yu.Hour() == 0 && yu.Minute() == 0 && yu.Second() == 0 && yu.Year() == x.Year() && yu.YearDay() == x.YearDay():
+			case yu.Year() <= 1 && yu.Hour() == x.Hour() && yu.Minute() == x.Minute() && yu.Second() == x.Second():
+			case (x.Unix() < -9223372036 || x.Unix() > 9223372036) && y.Equal(time.Unix(0, x.UnixNano())):
+				// unix-nano cannot represent the instant (int64 nanoseconds, 1678..2261): outside the value
+				// space of that format, and what Go's UnixNano yields there is what comes back
+			default:
+				return false, fmt.Sprintf("%s: time %s vs %s (no format of ogen maps the first to the second)", path, x.Format(time.RFC3339Nano), y.Format(time.RFC3339Nano))
+			}
+			return true, ""
+		}
 		_, ox := x.Zone()
 		_, oy := y.Zone()
 		if !x.Equal(y) || ox != oy {
